@@ -212,6 +212,6 @@ def early_exits(body, next_block, blocks):
     out = []
     for b in blocks:
         for s in cfg.block_succs(b):
-            if s not in blocks and s != next_block:
+            if s not in blocks and s != next_block and body.blocks[s].term.kind != "unreachable":
                 out.append((b, s))
     return out
